@@ -71,7 +71,7 @@ def child(w):
 
 # ---------------------------------------------------------------------------------------------- U_sig
 def terms_sig():
-    ws = {"x": 1, "y": 2, "z": 3, "q": 2}
+    ws = {"x": 1, "y": 2, "z": 3, "q": 2, "w6": 6}
     T = [Sig(n) for n in ws]
     for n in ("y", "z"):
         w = ws[n]
@@ -87,12 +87,16 @@ def terms_sig():
         T.append(Slc(Slc(Sig("z"), R(0, 3)), idx))
         T.append(Slc(Slc(Sig("z"), R(None, None, -1)), idx))
     T += [Cat(Slc(Slc(Sig("z"), R(1, 3)), I(0)), Slc(Cat(Sig("x"), Sig("y")), R(1, 3)))]
+    # sub-slices and indices of strided (non-unit-step) slices
+    for par in [R(None, None, 2), R(1, None, 2), R(5, None, -2), R(None, None, 3), R(4, 0, -1)]:
+        for idx in [I(0), I(1), I(-1), R(1, 3), R(0, 2), R(None, None, -1), R(1, None), R(0, 3, 2)]:
+            T.append(Slc(Slc(Sig("w6"), par), idx))
     return T
 
 
 def U_sig(max_w=3, stride=1):
     out = []
-    top_sigs = [sig("x", 1), sig("y", 2), sig("z", 3), sig("q", 2, True)]
+    top_sigs = [sig("x", 1), sig("y", 2), sig("z", 3), sig("q", 2, True), sig("w6", 6)]
     for k, t in enumerate(terms_sig()):
         if k % stride:
             continue
@@ -186,7 +190,7 @@ def U_array():
     for n in (1, 2, 3):
         a_terms = [Sig("u"), Sig("v"), Sig("w3"), Slc(Sig("w3"), R(0, n)), Cat(*[Sig("u")] * n), Slc(Sig("w6"), R(0, n)),
                    Slc(Sig("w6"), R(None, None, -1)), Cat(Slc(Sig("v"), I(1)), Sig("v"))]
-        b_terms = [Sig("v"), Sig("w6"), Slc(Sig("w6"), R(0, 2 * n)), Cat(*[Sig("v")] * n), Sig("w3"), Cat(Sig("w3"), Sig("u"))]
+        b_terms = [Sig("v"), Sig("w6"), Slc(Sig("w6"), R(0, 2 * n)), Cat(*[Sig("v")] * n), Sig("w3"), Cat(Sig("w3"), Sig("u")), Nc(7)]
         for ta, tb in itertools.product(a_terms, b_terms):
             insts = [inst("arr", "L12", [("a", ta), ("b", tb)], kind="array", arr=n, k="ext")]
             out.append(("U_array", design({"Top": mod(top_sigs, insts)})))
@@ -205,7 +209,7 @@ def U_pair():
     top_sigs = [sig("u", 1), sig("v", 1), sig("w2", 2)]
     DL = [(("p",), 1), (("n",), 1)]
     terms = [Bund("d"), Sig("u"), Anon(p=Sig("u"), n=Sig("v")), Anon(p=Bref("d", "n"), n=Bref("d", "p")), Bref("d", "p"),
-             Slc(Sig("w2"), I(0)), Anon(p=Slc(Sig("w2"), I(0)), n=Slc(Sig("w2"), I(1))), Sig("w2"), Bund("e"), Anon(p=Sig("u"))]
+             Slc(Sig("w2"), I(0)), Anon(p=Slc(Sig("w2"), I(0)), n=Slc(Sig("w2"), I(1))), Sig("w2"), Bund("e"), Anon(p=Sig("u")), Nc(5)]
     for ta, tb in itertools.product(terms, terms):
         insts = [inst("pr", "C2", [("a", ta), ("b", tb)], kind="pair")]
         out.append(("U_pair", design({"C2": c2, "Top": mod(top_sigs, insts + bprobes("d", DL) + bprobes("e", DL), [bnd("d", "Diff"), bnd("e", "Diff")])},
@@ -248,7 +252,7 @@ def all_designs(tier="quick", seed=0):
     for name, fn in FAMILIES.items():
         ds = fn()
         if tier == "quick":
-            cap = {"U_sig": 900, "U_pref": 729, "U_pref2": 300, "U_hier": 300}.get(name)
+            cap = {"U_hier": 400}.get(name)
             if cap and len(ds) > cap:
                 ds = rnd.sample(ds, cap)
         out += ds
